@@ -151,9 +151,15 @@ PROPS = {
         modules=VAL_MODS + ["c13_slice_sizes"],
         only_units=["clip_component", "offset_component", "clip_picture", "offset_picture", "idwt_pad_removal", "inverse_wavelet_transform", "picture_decode",
                     "sample_range_after_clip_and_offset", "padded_dims_cover_picture", "picture_parse", "fragment_header", "fragment_data", "fragment_parse",
-                    "parse_sequence", "picture_header"],
+                    "parse_sequence", "picture_header",
+                    # what the ASSUMED shape of idwt's result rests on: each synthesis level doubles the band, so the level-0 band of width W0 comes out
+                    # 2^levels times as large - which is the padded picture only if the real subband_width / subband_height double per level (C13.S2)
+                    "S2_padded_width_dc", "S2_padded_width_level", "S2_padded_height_ho", "S2_padded_height_level", "S2_padding_minimal"],
         level="proof",
         assumptions=[
+            "the assumed shape of idwt's result (padded picture size = subband dimensions above the top level) is consistent with what the synthesis loops do (every "
+            "level doubles the DC band) exactly when the real subband_width / subband_height double from level to level: the C13 lemmas S2_* are therefore discharged "
+            "again in this check, on the same tree",
             "PROVED for all states (unbounded): picture_decode makes exactly one callback call, with state['current_picture'] (pic_num == state['picture_number'], which "
             "picture_header / fragment_header read from the stream), state['video_parameters'] and state['picture_coding_mode']; each component has exactly "
             "luma/color_diff height x width (set by the sequence header and picture coding mode: C02's set_coding_parameters contract); every sample v satisfies "
